@@ -91,6 +91,8 @@ LawClause(c, i) ==
   ELSE IF ~Close(e[5], e[6]) THEN "not-absolutely-homogeneous"
   ELSE IF ~Close(FMulInt(e[8], cd), FMulInt(e[3], cn)) THEN "not-absolutely-homogeneous"
   ELSE IF ~FLeqTol(e[5], FAdd(e[3], e[4]), E12, E9) \/ ~FLeqTol(e[9], FAdd(e[3], e[4]), E12, E9) THEN "triangle-inequality"
+  \* the same inequality read from the other side: | ||P|| - ||Q|| | <= ||P - Q||  (a difference that collapses to zero between landscapes of different norm shows here)
+  ELSE IF ~FLeqTol(FAbs(FSub(e[3], e[4])), e[5], E12, E9) THEN "triangle-inequality"
   ELSE "ok"
 RECURSIVE FirstBadLaw(_, _)
 FirstBadLaw(c, i) == IF i > Len(c.rows) THEN <<"ok", 0>> ELSE LET cl == LawClause(c, i) IN IF cl = "ok" THEN FirstBadLaw(c, i + 1) ELSE <<cl, c.rows[i][1]>>
